@@ -25,8 +25,11 @@ def malformed(rnd, n):
             for _ in range(rnd.randint(1, 3)):
                 s = gens.mutate(rnd, s)
             out.append(s)
-        elif r < 0.9:
+        elif r < 0.87:
             out.append(gens.weird(rnd))
+        elif r < 0.9:
+            # otherwise valid text with ONE unsupported blank-like character (must raise ValueError in every position)
+            out.append(rnd.choice(gens.unsupported_blank_variants(rnd, gens.valid_expr(rnd, rnd.randint(1, 3)))))
         else:
             out.append(gens.valid_expr(rnd, rnd.randint(1, 4)))
     return out
